@@ -412,6 +412,7 @@ func c04RunProxy(in *c04In) Result {
 		}
 	}
 	trig := c04Triggers(in, req.Header) // before ServeHTTP: the proxy may mutate req.Header (aliasing)
+	fixedCl := c04RepairedClasses(in, req.Header)
 	text := "proxy / " + strings.Join(in.Targets, " ") + " {\n" + c04BlockText(in.Dirs)
 	if len(in.Targets) > 1 {
 		text += "  policy round_robin\n"
@@ -486,6 +487,8 @@ func c04RunProxy(in *c04In) Result {
 	}
 	if len(trig) > 0 {
 		sig = "proxy:" + strings.Join(trig, "+")
+	} else if len(fixedCl) > 0 {
+		sig = "proxy:" + strings.Join(fixedCl, "+")
 	}
 	class := "proxy:"
 	switch {
@@ -524,9 +527,6 @@ func c04Triggers(in *c04In, reqHdr http.Header) []string {
 	if in.Fails > 0 && in.Retry && c04NonIdempotent(in) {
 		t = append(t, "retry:rewrite-reapplied")
 	}
-	if cv := reqHdr["Connection"]; len(cv) >= 2 && c04LaterConnNames(cv, reqHdr) {
-		t = append(t, "request:second-connection-line")
-	}
 	if emptyFirstHop {
 		t = append(t, "request:hop-header-empty-first-value")
 	}
@@ -539,7 +539,19 @@ func c04Triggers(in *c04In, reqHdr http.Header) []string {
 	return t
 }
 
-// a later Connection line names a header that is present (only the first line is honoured by the code)
+// c04RepairedClasses names the input classes of REPAIRED findings (status "fixed" in
+// known_findings.json; witnesses in corpus/C04). They exempt nothing and do not restrict the
+// generator: they only label Sig, so that a regression is reported under the class it belongs to.
+func c04RepairedClasses(in *c04In, reqHdr http.Header) []string {
+	var t []string
+	if cv := reqHdr["Connection"]; len(cv) >= 2 && c04LaterConnNames(cv, reqHdr) {
+		t = append(t, "request:second-connection-line") // F-C04-1
+	}
+	return t
+}
+
+// a later Connection line names a header that is present (before the repair of F-C04-1/F-C04-3 only
+// the first line was honoured)
 func c04LaterConnNames(vals []string, h http.Header) bool {
 	for _, v := range vals[1:] {
 		for _, f := range strings.Split(v, ",") {
